@@ -78,7 +78,7 @@ def differential(rep, variant, cands, key, what, stop_after_first=True, need_pan
             norm = sum(x * x for x in s1f) + sum(x * x for x in s2f)
             rep.violation(key, '%s: Falcon-%d triple [%s], squared norm %d (bound %d): verify returns dev=%s release=%s, Algorithm 16 says %s'
                           % (what, variant, label, norm, spec.SIG_BOUND[variant], dev, rel, exp),
-                          {'replay_request': ['verify', variant, msg.hex(), sig.hex()[:100] + '...', pk.hex()[:100] + '...'], 'full_request_file': None,
+                          {'replay_request': ['verify', variant, msg.hex(), sig.hex(), pk.hex()],
                            'construction': {'s2_small': s2, 's1_small': s1, 'msg': msg.hex(), 'salt': '00' * 40, 'label': label}, 'dev': dev, 'release': rel, 'expected': exp})
             found = True
             if stop_after_first:
@@ -142,6 +142,10 @@ def check(tier):
             if (key, variant) in confirmed:
                 continue
             norms = [b['norm']] if b.get('norm') else []
+            if b.get('width') and b.get('width_bits'):
+                # a narrow accumulator shows where the true norm passes a power of two of its width (wraps, saturates or panics there)
+                w = b['width_bits']
+                norms += [x for x in ((1 << w) + 5434, (1 << w) + spec.SIG_BOUND[variant] // 2, (1 << (w - 1)) + 5434, (1 << (w - 1)) + spec.SIG_BOUND[variant] + 7) if x > spec.SIG_BOUND[variant]]
             vecs = [(b['s2'], b['s1'])] if b.get('s1') is not None and b.get('s2') is not None and not b.get('abstract') else []
             if differential(rep, variant, battery(variant, norms, vecs), key, kind):
                 confirmed.add((key, variant))
